@@ -153,9 +153,13 @@ std::unique_ptr<semantic::RSForm> OpMaxPart::Execute() {
 
 VectorOfEntities OpMaxPart::GetAllCstMaxPart() const {
   SetOfEntities selList = arguments;
-  for (const auto entity : schema.List()) {
-    if (!selList.contains(entity) && CheckCst(entity, selList)) {
-      selList.emplace(entity);
+  for (auto grown = true; grown; ) {
+    grown = false;
+    for (const auto entity : schema.List()) {
+      if (!selList.contains(entity) && CheckCst(entity, selList)) {
+        selList.emplace(entity);
+        grown = true;
+      }
     }
   }
   return schema.List().SortSubset(selList);
